@@ -77,12 +77,33 @@ def events_to_script(events):
     return ops, outs
 
 
+def offered_requests(events):
+    """[(host, payload | None)] in the order the client tried them: every write event offering a whole frame
+    (the first write of a request, accepted or not) and every refused connect (payload None)"""
+    out = []
+    for ev in events:
+        if ev.name == "write":
+            data = ev.args[1]
+            if len(data) >= 4 and struct.unpack(">i", data[:4])[0] == len(data) - 4:
+                out.append((ev.args[0], data[4:]))
+        elif ev.name == "connect" and ev.args[1] == 0:
+            out.append((ev.args[0], None))
+    return out
+
+
 def derive_hints(requests):
-    """requests: [(host, payload)] of the complete frames the brokers received during one op"""
+    """requests: [(host, payload | None)] as returned by offered_requests"""
     hostq, fetchq, anyq, entryq = [], [], [], []
     last_corr = None
     seen_commit = set()
     for host, payload in requests:
+        if payload is None:
+            # a refused connect ends the call: the host is the last one of the current batch
+            if hostq:
+                hostq[-1].append(host)
+            else:
+                hostq.append([host])
+            continue
         try:
             rq = kproto.parse_request(payload)
         except kproto.ProtoError:
@@ -130,8 +151,9 @@ def _scan_sets_for_gzip(data, table, depth=0):
             _scan_sets_for_gzip(plain, table, depth + 1)
 
 
-def derive_env(requests, replies, debug):
-    gz, sn, gunzip = {}, {}, {}
+def derive_env(requests, replies, debug, gunzip=None):
+    gz, sn = {}, {}
+    gunzip = {} if gunzip is None else gunzip      # cumulative over a case: a reply may be read by a later call
     for host, payload in requests:
         try:
             rq = kproto.parse_request(payload)
@@ -239,6 +261,7 @@ class Runner:
         self.profile = profile
         self.h = Harness(profile)
         self.m = ModelD()
+        self.gunzip = {}
 
     def close(self):
         self.h.close()
@@ -247,6 +270,7 @@ class Runner:
     def reset(self):
         self.h.call(T("drop"), SimNet(lambda h, p: None))
         self.m.reset()
+        self.gunzip = {}
 
     def run_op(self, op, net, model_op=None):
         """-> dict with both results, traces, agreement flags"""
@@ -258,8 +282,8 @@ class Runner:
         reqs = net.requests[nreq0:]
         replies = getattr(net, "replies", [])[nrep0:]
         ops, outs = events_to_script(events)
-        hints = derive_hints(reqs)
-        env = derive_env(reqs, replies, self.profile == "debug")
+        hints = derive_hints(offered_requests(events))
+        env = derive_env(reqs, replies, self.profile == "debug", self.gunzip)
         mres, mtrace = self.m.step(model_op if model_op is not None else op, hints, outs, env)
         sub = op.args[0].name if op.name == "consumer_op" and op.args and isinstance(op.args[0], T) else None
         ch = canon_result(op.name, sub, hres, maxalloc)
